@@ -380,6 +380,37 @@ def dynamic_part(ck, rng, quick):
     ck.extra["scenarios"] = len(results)
 
 
+def bitfield_part(ck):
+    """objects shared between threads must be separate memory locations: a struct that carries its own lock (a Semaphore member)
+    may not pack flags into bit-fields -- a write to one bit-field is a read-modify-write of its neighbours, whatever lock
+    protects them (the defect repaired by fb0625d).  Purely syntactic, over the analysed CS104 files."""
+    n = 0
+    for rel in ("src/iec60870/cs104/cs104_slave.c", "src/iec60870/cs104/cs104_connection.c"):
+        path = core.LIBROOT / rel
+        try:
+            txt = path.read_text(errors="replace")
+        except OSError:
+            continue
+        txt_nc = re.sub(r"/\*.*?\*/", lambda m: re.sub(r"[^\n]", " ", m.group(0)), txt, flags=re.S)
+        for m in re.finditer(r"struct\s+(\w+)\s*\{", txt_nc):
+            # body up to the matching brace
+            depth, i = 1, m.end()
+            while i < len(txt_nc) and depth:
+                depth += {"{": 1, "}": -1}.get(txt_nc[i], 0)
+                i += 1
+            body = txt_nc[m.end():i - 1]
+            if "Semaphore" not in body:
+                continue
+            n += 1
+            for bm in re.finditer(r"([A-Za-z_]\w*)\s*:\s*\d+\s*;", body):
+                line = txt_nc[:m.end() + bm.start()].count("\n") + 1
+                ck.fail("input", "bitfield-in-locked-struct:%s.%s" % (m.group(1), bm.group(1)),
+                        "struct %s (%s:%d) carries its own lock and packs the flag `%s` into a bit-field: writing it rewrites the neighbouring bit-fields, "
+                        "whichever lock protects them (data race with every locked access to the neighbours)" % (m.group(1), rel.split("/")[-1], line, bm.group(1)),
+                        {"file": rel, "line": line, "struct": m.group(1), "member": bm.group(1)})
+    ck.count("structs_with_lock_scanned_for_bitfields", n)
+
+
 def run(ck):
     ck.explanation = "PARTIAL: lock discipline, lock order and deadlock freedom are proved in Coq on skeletons regenerated from the C source on every run; data-race freedom is not provable with this model and is searched with ThreadSanitizer and instrumented semaphores on the real threaded server / client."
     quick = ck.tier == "quick"
@@ -398,6 +429,7 @@ def run(ck):
                "application threads enqueue / query / send / stop / close concurrently; each scenario in its own process under ASan+instrumented semaphores, and under TSan; "
                "plus callback-re-entry scenarios (handlers call the API). non-trivial = scenario in which frames and API calls actually flowed")
     g, rows = static_part(ck)
+    bitfield_part(ck)
     dynamic_part(ck, rng, quick)
     ck.notes.append("data-race freedom is searched (TSan + instrumented semaphores), not proved; lock discipline and deadlock order are proved on the regenerated skeletons")
 
